@@ -231,6 +231,9 @@ func instrumentPackage(fset *token.FileSet, imp types.Importer, pj pkgJob, overl
 		if r.rewriteTime(af) {
 			r.used = true
 		}
+		if r.rewriteUnixListener(af) {
+			r.used = true
+		}
 		if reset := globalResetInit(af); reset != nil {
 			af.Decls = append(af.Decls, reset)
 			r.used = true
@@ -381,6 +384,59 @@ func (r *rw) rewriteTime(af *ast.File) bool {
 		af.Decls = append(af.Decls, &ast.GenDecl{Tok: token.VAR, Specs: []ast.Spec{&ast.ValueSpec{Names: []*ast.Ident{ident("_")}, Type: &ast.SelectorExpr{X: ident(parts[0]), Sel: ident(typ)}}}})
 	}
 	return len(changed) > 0 || changedAny
+}
+
+// rewriteUnixListener replaces the type *net.UnixListener, wherever the code under test names it as the target of a
+// type assertion, a case of a type switch or the type of a declaration, by the interface vsched.UnixListener. The real
+// type satisfies it, and so does the controlled listener that stands for a unix path socket, so the library's
+// l.(*net.UnixListener).SetUnlinkOnClose(true) reaches the model (and the race monitor) instead of panicking.
+func (r *rw) rewriteUnixListener(af *ast.File) bool {
+	is := func(e ast.Expr) bool {
+		st, ok := e.(*ast.StarExpr)
+		if !ok {
+			return false
+		}
+		sel, ok := st.X.(*ast.SelectorExpr)
+		if !ok || sel.Sel.Name != "UnixListener" {
+			return false
+		}
+		id, ok := sel.X.(*ast.Ident)
+		if !ok {
+			return false
+		}
+		pn, ok := r.info.Uses[id].(*types.PkgName)
+		return ok && pn.Imported().Path() == "net"
+	}
+	repl := func() ast.Expr { return &ast.SelectorExpr{X: ident("vsched"), Sel: ident("UnixListener")} }
+	changed := false
+	ast.Inspect(af, func(n ast.Node) bool {
+		switch x := n.(type) {
+		case *ast.TypeAssertExpr:
+			if x.Type != nil && is(x.Type) {
+				x.Type = repl()
+				changed = true
+			}
+		case *ast.CaseClause:
+			for i, e := range x.List {
+				if is(e) {
+					x.List[i] = repl()
+					changed = true
+				}
+			}
+		case *ast.ValueSpec:
+			if x.Type != nil && is(x.Type) {
+				x.Type = repl()
+				changed = true
+			}
+		case *ast.Field:
+			if x.Type != nil && is(x.Type) {
+				x.Type = repl()
+				changed = true
+			}
+		}
+		return true
+	})
+	return changed
 }
 
 // replaceExprs substitutes expressions (by identity) wherever they occur as operands in f.
